@@ -29,6 +29,10 @@ func TestFixture(t *testing.T) {
 	wantF := FanOut(4)
 	wantP := Pipeline(12)
 	wx, ws := Offer()
+	wantPool := Pooled(6)
+	if wantPool != 0+0+1+3+6+10+15 {
+		t.Fatalf("plain run: pooled %d", wantPool)
+	}
 	if wantF != 1+2+3+4+2*(1+2+3+4)+400+1 || len(wantP) != 9 || wx != 3 || ws != "x" {
 		t.Fatalf("plain run: %d %v %d %q", wantF, wantP, wx, ws)
 	}
@@ -43,6 +47,9 @@ func TestFixture(t *testing.T) {
 			gotF = FanOut(4)
 			gotP = Pipeline(12)
 			gx, gs = Offer()
+			if got := Pooled(6); got != wantPool {
+				panic(fmt.Sprintf("simulated Pooled = %d", got))
+			}
 		})
 		if gotF != wantF || !reflect.DeepEqual(gotP, wantP) || gx != wx || gs != ws {
 			t.Fatalf("seed %d: simulated run differs: %d %v %d %q", seed, gotF, gotP, gx, gs)
@@ -53,13 +60,16 @@ func TestFixture(t *testing.T) {
 		spawned += sim.Spawned
 		sigs[sim.Sig] = true
 		// replay: same seed, same schedule
-		sim2 := underSim(t, seed, pol, func() { FanOut(4); Pipeline(12); Offer() })
+		sim2 := underSim(t, seed, pol, func() { FanOut(4); Pipeline(12); Offer(); Pooled(6) })
 		if sim2.Sig != sim.Sig || sim2.Steps != sim.Steps {
 			t.Fatalf("seed %d: replay diverged (%d/%d steps)", seed, sim.Steps, sim2.Steps)
 		}
 	}
-	if spawned != 300*(13+3+1) || len(sigs) < 100 {
+	if spawned != 300*(13+3+1+6) || len(sigs) < 100 {
 		t.Fatalf("spawned=%d distinct schedules=%d", spawned, len(sigs))
 	}
-	fmt.Printf("FIXTURE OK spawned=%d distinct_schedules=%d\n", spawned, len(sigs))
+	if simrt.PoolReuses == 0 || simrt.PoolReuses == simrt.PoolGets {
+		t.Fatalf("pool: %d gets, %d reuses", simrt.PoolGets, simrt.PoolReuses)
+	}
+	fmt.Printf("FIXTURE OK spawned=%d distinct_schedules=%d pool_gets=%d pool_reuses=%d\n", spawned, len(sigs), simrt.PoolGets, simrt.PoolReuses)
 }
